@@ -504,4 +504,31 @@ def c02_nested_stream():
         problems.append(f"the reference codec cannot decode the stream: {type(e).__name__}: {e}")
     return {"violates": bool(problems), "detail": problems[:3]}
 
-CALLS = {"c02_nested_stream": c02_nested_stream, "c02_value_form": c02_value_form, "c02_concat": c02_concat, "c02_ignoring": c02_ignoring, "c02_registry_keeps": c02_registry_keeps, "c02_bare_name_latest": c02_bare_name_latest, "c02_refused_then_written": c02_refused_then_written, "c02_history_sweep": c02_history_sweep, "c02_golden": c02_golden, "c02_make_golden": c02_make_golden, "c02_reference_sweep": c02_reference_sweep, "c02_reference_decode": c02_reference_decode, "c02_reference_encode": c02_reference_encode, "c02_compat": c02_compat}
+
+def c02_descriptor_alias():
+    from flow.record import RecordDescriptor
+
+    fields = [("wstring", "w"), ("string", "s"), ("net.IPAddress", "ip"), ("wstring[]", "wl")]
+    D = RecordDescriptor("c02/alias", fields)
+    descs = [e for e in R.decode_stream(_write([D(w="a", s="b", ip="1.2.3.4", wl=[])])) if e[0] == "DESC"]
+    got = [tuple(f) for f in descs[0][2]] if descs else None
+    return {"violates": got != fields, "detail": f"the definition in the stream declares {got!r}, the descriptor was declared with {fields!r}"}
+
+
+def c02_grouped_same_name():
+    from flow.record import GroupedRecord, RecordDescriptor
+
+    A = RecordDescriptor("c02/m", [("varint", "n")])
+    A2 = RecordDescriptor("c02/m", [("string", "s")])
+    known, problems = set(), []
+    try:
+        for e in R.decode_stream(_write([A(n=5), GroupedRecord("c02/g", [A2(s="v"), A(n=1)])])):
+            if e[0] == "DESC":
+                known.add((e[1], W.descriptor_hash(e[1], e[2])))
+            elif e[0] == "GROUPED":
+                problems += [f"the grouped frame names the member type {(m[0], m[1])!r} before its definition" for m in e[2] if (m[0], m[1]) not in known]
+    except Exception as e:
+        problems.append(f"the reference codec cannot decode the stream: {type(e).__name__}: {e}")
+    return {"violates": bool(problems), "detail": problems[:3]}
+
+CALLS = {"c02_descriptor_alias": c02_descriptor_alias, "c02_grouped_same_name": c02_grouped_same_name, "c02_nested_stream": c02_nested_stream, "c02_value_form": c02_value_form, "c02_concat": c02_concat, "c02_ignoring": c02_ignoring, "c02_registry_keeps": c02_registry_keeps, "c02_bare_name_latest": c02_bare_name_latest, "c02_refused_then_written": c02_refused_then_written, "c02_history_sweep": c02_history_sweep, "c02_golden": c02_golden, "c02_make_golden": c02_make_golden, "c02_reference_sweep": c02_reference_sweep, "c02_reference_decode": c02_reference_decode, "c02_reference_encode": c02_reference_encode, "c02_compat": c02_compat}
